@@ -47,6 +47,8 @@ pub enum Stmt {
     /// command-API task awaiting a request made through the old capability API (a capability clone
     /// captured by the task); on hosts without capabilities an ordinary request
     CapRequest(Leaf),
+    /// `n` events in a row without an await point in between (many outputs in one poll)
+    Burst { n: u8, tag: u32 },
     Notify(Leaf),
     Emit { tag: u32, cont: Option<Box<Cmd>> },
     StreamLoop { leaf: Leaf, body: Vec<Stmt>, take: Option<u32> },
@@ -147,6 +149,97 @@ impl Cmd {
             }
         }, &mut |_| {});
         v
+    }
+
+    /// For every abort handle that is instantiated exactly once (not inside a continuation): the labels
+    /// of the command-API tasks it cancels - `own`: tasks of the aborted command itself (its first task
+    /// and what that spawned), `nested`: tasks of commands hosted inside it. A handle on the left operand
+    /// of `a.and(b)` covers `b` as well (as nested work). Tasks of the old capability API are not part of
+    /// any command.
+    pub fn abort_coverage(&self) -> std::collections::BTreeMap<u32, (std::collections::BTreeSet<u32>, std::collections::BTreeSet<u32>)> {
+        use std::collections::{BTreeMap, BTreeSet};
+        fn task_labels(t: &Task, out: &mut BTreeSet<u32>) {
+            out.insert(t.label);
+            for s in &t.stmts {
+                stmt_labels(s, out);
+            }
+        }
+        fn stmt_labels(s: &Stmt, out: &mut BTreeSet<u32>) {
+            match s {
+                Stmt::StreamLoop { body, .. } => body.iter().for_each(|b| stmt_labels(b, out)),
+                Stmt::Spawn { task, .. } | Stmt::SpawnChan { task, .. } => task_labels(task, out),
+                Stmt::JoinAll(ts) | Stmt::SelectFirst(ts) => ts.iter().for_each(|t| task_labels(t, out)),
+                // continuations are new commands of their own
+                _ => {}
+            }
+        }
+        /// labels of all command-API tasks in `c` (not descending into continuations)
+        fn all_labels(c: &Cmd, out: &mut BTreeSet<u32>) {
+            match c {
+                Cmd::Then(a, b) | Cmd::And(a, b) => {
+                    all_labels(a, out);
+                    all_labels(b, out);
+                }
+                Cmd::All(xs) => xs.iter().for_each(|x| all_labels(x, out)),
+                Cmd::MapEffect(_, x) | Cmd::MapEvent(_, x) | Cmd::IntoFrom(x) | Cmd::Abortable(_, x) => all_labels(x, out),
+                Cmd::Async(t) => task_labels(t, out),
+                _ => {}
+            }
+        }
+        /// returns the handles attached directly to (the inline spine of) `c`
+        fn walk(c: &Cmd, res: &mut BTreeMap<u32, (BTreeSet<u32>, BTreeSet<u32>)>) -> Vec<u32> {
+            match c {
+                Cmd::Abortable(h, x) => {
+                    let mut spine = walk(x, res);
+                    let mut inner = x.as_ref();
+                    while let Cmd::Abortable(_, y) = inner {
+                        inner = y;
+                    }
+                    let mut own = BTreeSet::new();
+                    let mut all = BTreeSet::new();
+                    if let Cmd::Async(t) = inner {
+                        task_labels(t, &mut own);
+                    }
+                    all_labels(inner, &mut all);
+                    let nested: BTreeSet<u32> = all.difference(&own).copied().collect();
+                    res.insert(*h, (own, nested));
+                    spine.push(*h);
+                    spine
+                }
+                Cmd::And(a, b) => {
+                    let spine = walk(a, res);
+                    walk(b, res);
+                    // handles on the left operand belong to the combined command
+                    let mut extra = BTreeSet::new();
+                    all_labels(b, &mut extra);
+                    for h in &spine {
+                        if let Some(e) = res.get_mut(h) {
+                            e.1.extend(extra.iter().copied());
+                        }
+                    }
+                    spine
+                }
+                Cmd::Then(a, b) => {
+                    walk(a, res);
+                    walk(b, res);
+                    vec![]
+                }
+                Cmd::All(xs) => {
+                    xs.iter().for_each(|x| {
+                        walk(x, res);
+                    });
+                    vec![]
+                }
+                Cmd::MapEffect(_, x) | Cmd::MapEvent(_, x) | Cmd::IntoFrom(x) => {
+                    walk(x, res);
+                    vec![]
+                }
+                _ => vec![],
+            }
+        }
+        let mut res = BTreeMap::new();
+        walk(self, &mut res);
+        res
     }
 
     pub fn visit(&self, fc: &mut dyn FnMut(&Cmd), fs: &mut dyn FnMut(&Stmt)) {
